@@ -17,10 +17,11 @@ Record fixes := mk_fixes {
   fx_rtspidx : bool;    (* Rtmp2RtspRemuxer.remux checks len > nalu index *)
   fx_hevc : bool;       (* hevc.parseVpsSpsPpsFromRecord checks len >= 33, parseVpsSpsPpsAnnexbFromRecord skips an empty nalu
                            (two fix commits, one flag: the C19 model has one `fixed` parameter for both) *)
-  fx_dummy : bool       (* DummyAudioFilter fills at most 10 s per message, 64-bit compare *)
+  fx_dummy : bool;      (* DummyAudioFilter fills at most 10 s per message, 64-bit compare *)
+  fx_pad : bool         (* avc.ParseSps / hevc.ParseSps hand nazabits the RBSP copy with one zero byte appended (F-13) *)
 }.
-Definition fixes_pinned : fixes := mk_fixes false false false false false false false false false false.
-Definition fixes_all : fixes := mk_fixes true true true true true true true true true true.
+Definition fixes_pinned : fixes := mk_fixes false false false false false false false false false false false.
+Definition fixes_all : fixes := mk_fixes true true true true true true true true true true true.
 
 Record mmsg := mk_mmsg { mm_type : N; mm_ts : N; mm_pay : bytes }.
 
